@@ -128,7 +128,38 @@ EXPLORE.update({
     "C29": "Metamorphic contract: parent.extend() plus added clauses answers like preparing the union from scratch, and the "
            "parent database answers as before the extension.",
 })
+EXPLORE.update({
+    "C11": "Run-time contract on the real LogicFormula builder: after every call of seeded call sequences (add_atom, add_and, "
+           "add_or readonly/mutable, add_disjunct, negate, add_name) under nine builder option sets, every key returned so far "
+           "denotes, by truth table over the atoms, the Boolean function an independent symbolic model of the sequence gives. "
+           "The planned proof of the compound/negation core was not built.",
+    "C13": "Run-time contract on DefaultEngine.query / findall/3 for seeded deterministic programs against an independent SLD "
+           "interpreter (answer order and duplicates) and a bottom-up least-model evaluator (recursive programs, answer sets); "
+           "three listed known deviations of the answer order. Second run-time contract, on the real ClauseIndex.find of "
+           "the prepared database: exactly the non-clashing clauses, in program order, index unchanged (the contract of "
+           "DESIGN.md A.3, evaluated on seeded fact lists and argument patterns; its planned proof was not built).",
+    "C14": "Run-time contract on =/2, \\=/2 and clause-head matching for all pairs of a core term set plus seeded random terms "
+           "against a reference Robinson unifier with occurs check (answers compared up to variable renaming). The planned "
+           "proof of the unify_value wrappers was not built.",
+    "C18": "Run-time contract, exhaustive over all pairs and triples of a fixed universe of terms built with the public "
+           "constructors and the parser: reflexivity, symmetry, transitivity, equal => same hash, ground equal <=> unifiable; "
+           "four listed known findings (string-based Constant equality, quoted atoms, \\+ vs not under unification). The planned "
+           "proof for Term-vs-Term was not built.",
+})
+FUNCTION_LEVEL = ("C11", "C13", "C14", "C18")
+FN_BOUNDED_TECH = ("run-time contract (pre/post-condition against an independent reference) on the real functions over a "
+                   "bounded input family; the deductive contracts planned for these functions were not built, so nothing "
+                   "here is counted as proved")
+FN_BOUNDED_NOTE = ("Bounded stand-in, never counted as proved: bounds and the non-triviality rule are in the evidence file's "
+                   "rule. Trusted: the input generators and the reference models in /verif/bounded (symbolic truth-table model, "
+                   "Robinson unifier, SLD interpreter; my own code). Known findings listed in known_findings.json are reported "
+                   "as KNOWN-FINDING and do not fail the check.")
 for _pid, _text in EXPLORE.items():
+    if _pid in FUNCTION_LEVEL:
+        CLAIMS[_pid] = dict(category="exploration", text=_text + " Bounded stand-in only: labelled bounded, not proved.",
+                            design_ref="DESIGN.md section 0a (what was built) and section 2, %s (plan)" % _pid,
+                            technique=FN_BOUNDED_TECH, note=FN_BOUNDED_NOTE)
+        continue
     CLAIMS[_pid] = dict(category="exploration", text=_text + " Bounded stand-in only: labelled bounded, not proved.",
                         design_ref="DESIGN.md section 2, pipeline properties", technique=BOUNDED_TECH, note=BOUNDED_NOTE)
 
@@ -155,8 +186,9 @@ for p in props:
             technique=c["technique"],
         ))
     else:
-        na.append(dict(property_id=pid, reason=NA.get(pid, "not built yet in this round (build in progress; see DESIGN.md "
-                                                         "section 2b for the order)")))
+        na.append(dict(property_id=pid, reason=NA.get(pid, "not decided: the contracts / bounded stand-in planned for it in "
+                                                         "DESIGN.md section 2 were not built in the time available (see "
+                                                         "DESIGN.md section 0a); no check is registered, nothing is claimed")))
 
 m = dict(
     version=1,
